@@ -1,6 +1,6 @@
 \* batch validation of recorded histories: 4 temperatures, 2 alternative table values per dimension
 CONSTANTS NT = 4  NV = 2  MaxLevel = 999
-  KindChoices <- TrNone  TempChoices <- TrNone  LinkPairs <- TrLinks  RampSteps <- TrRamp
+  KindChoices <- TrNone  TempChoices <- TrNone  LinkPairs <- TrLinks  RampSteps <- TrRamp  AuxChoices <- TrAux
 SPECIFICATION TSpec
 CONSTRAINT Progress
 POSTCONDITION Report
@@ -8,6 +8,7 @@ INVARIANT EmitT
 INVARIANT TypeOK
 INVARIANT LinksAcyclic
 INVARIANT PathIndependent
+INVARIANT AuxScaleWithDensities
 INVARIANT DensityShrinksBySquare
 INVARIANT MassPerHeightConserved
 INVARIANT ReadBack
